@@ -88,6 +88,12 @@ def cases(tier, seed):
             if d <= 5:
                 for p in pat.FULL(d):
                     add('unary', cfg, p)
+    # the same operations spelled other ways: a plain number on either side of + and -, and the expressions
+    # handed to alg.register (numeric tape and symbolic=True)
+    for cfg in (dict(p=2), dict(p=1, q=1), dict(p=2, r=1), dict(p=3), dict(p=3, r=1)):
+        dd = sum(cfg.values())
+        for _ in range(8 if tier == 'quick' else 60):
+            add('forms', cfg, pat.random_pattern(rng, dd, max_len=4), pat.random_pattern(rng, dd, max_len=4))
     # configuration fuzz over all construction axes
     for i in range(150 if tier == 'quick' else 1500):
         cfg, dd = pat.random_cfg(rng)
@@ -135,6 +141,33 @@ def run_case(desc, V):
             extra_keys = [k for k in r.keys() if popcount(k) not in gs or k not in A]
             if extra_keys:
                 claims.append(Fail(f'grade[{gs}]:keys', f'grade{gs} of keys {tuple(a.keys())} stores blades {extra_keys}'))
+        return claims
+    if kind == 'forms':
+        b = mv(alg, V, 'b', desc['kb'])
+        B = coeffs(b)
+        s_ = V.var('s')
+        S = {0: s_}
+        progs = {'a + b': R.add(A, B), 'a - b': R.sub(A, B), 'b - a': R.sub(B, A), '-a': R.neg(A), '5 - a': R.sub({0: 5}, A), 'a - 5': R.sub(A, {0: 5}),
+                 '5 + a': R.add(A, {0: 5}), 'a + 5': R.add(A, {0: 5}), '-(a - b)': R.sub(B, A), '~a': ops.ref_unary(km, 'reverse', A),
+                 'a.involute()': ops.ref_unary(km, 'involute', A), 'a.conjugate()': ops.ref_unary(km, 'conjugate', A),
+                 'a.grade(1)': {k: v for k, v in A.items() if popcount(k) == 1}, 'a.grade(0, 2) - b.grade(1)': R.sub({k: v for k, v in A.items() if popcount(k) in (0, 2)}, {k: v for k, v in B.items() if popcount(k) == 1})}
+        claims += mv_eq_claims('s - a', s_ - a, R.sub(S, A))
+        claims += mv_eq_claims('a - s', a - s_, R.sub(A, S))
+        claims += mv_eq_claims('s + a', s_ + a, R.add(S, A))
+        claims += mv_eq_claims('a + s', a + s_, R.add(A, S))
+        for i, (src, want) in enumerate(progs.items()):
+            ns = {}
+            exec(f'def c04_form{i}(a, b):\n    return {src}\n', ns)
+            f = ns[f'c04_form{i}']
+            claims += mv_eq_claims(f'direct:{src}', f(a, b), want, fkey='forms|direct')
+            for mode in ('register', 'register-symbolic'):
+                g = alg.register(f, symbolic=True) if mode.endswith('symbolic') else alg.register(f)
+                try:
+                    r = g(a, b)
+                except Exception as e:  # noqa
+                    claims.append(Fail(f'{mode}:{src}:raises', f'{mode} of `{src}` raised {type(e).__name__}: {e}', fkey=f'forms|{mode}|raises'))
+                    continue
+                claims += mv_eq_claims(f'{mode}:{src}', r, want, fkey=f'forms|{mode}')
         return claims
     if kind == 'morphism':
         b = mv(alg, V, 'b', desc['kb'])
